@@ -130,8 +130,8 @@ def step (r : Reg Inst) (line : String) : Reg Inst × Option String :=
     | some id => (r, some (if live id then "I 0" else badLine (if via == "c" || via == "p" then "SetBasicCallback" else "SetBasicFortranCallback")))
     | none => (r, some "bad-op")
   | ["version"] => (r, some "N")
-  | ["loaddb", _, id] => call id (.unload true)
-  | ["loadbad", _, id] => call id (.unload false)
+  | ["loaddb", _, id] | ["loadstr", _, id] => call id (.unload true)
+  | ["loadbad", _, id] | ["loadstrbad", _, id] => call id (.unload false)
   | ["defsel", _, id, n, f] =>
     match n.toInt?, (if f == "-" then some none else (unhexStr f).map some) with
     | some n, some f => call id (.defSel n f)
